@@ -102,13 +102,14 @@ def cases(tier, cfg, seed):
     for T in TS:
         for op in OPS:
             for (N, n) in ([(9, 4)] if tier == 'quick' else [(9, 4), (9, 3), (17, 8), (12, 5)]):
+                if tier == 'quick' and cfg.isa != 'avx2' and op not in ('=', '+='): continue      # symbolic ranges: all operators on one ISA, = and += on the others
+                if T in IT and op in ('*=', '/='): continue          # bit-blasted mul/div inside symbolic-address ite chains: fixed ranges cover them
                 out.append(Overlap1D(T, N, n, op, 'view'))
-                if op in ('=', '+='): out.append(Overlap1D(T, N, n, op, 'scaled')); out.append(Overlap1D(T, N, n, op, 'plusB'))
-                if not (T in IT and op == '/='): out.append(Overlap1D(T, N, n, op, 'scaled', noalias=False))   # a+a may be 0 for ints
-            out.append(Overlap1D(T, 9, 4, op, 'view', neg=True))
+                if op == '=': out.append(Overlap1D(T, N, n, op, 'scaled')); out.append(Overlap1D(T, N, n, op, 'plusB'))
+                out.append(Overlap1D(T, N, n, op, 'scaled' if op == '=' else 'view', noalias=False))
+            if not (T in IT and op in ('*=', '/=')) and (tier != 'quick' or cfg.isa == 'avx2' or op == '='): out.append(Overlap1D(T, 9, 4, op, 'view', neg=True))
         out.append(Overlap1D(T, 9, 3, '=', 'view', twice=True)); out.append(Overlap1D(T, 9, 3, '+=', 'view', twice=True))
-        for op in (('=',) if tier == 'quick' else OPS):
-            if tier == 'quick' and (T != 'double' or cfg.isa != 'avx2'): continue
+        for op in (() if tier == 'quick' else OPS):
             out.append(Overlap2D(T, 4, 5, 2, 2, op))
             out.append(Overlap2D(T, 3, 9, 2, 4, op, noalias=False))
         if tier != 'quick': out.append(Overlap2D(T, 4, 9, 2, 4, '='))
